@@ -71,6 +71,19 @@ def main():
         except core.HarnessError:
             traceback.print_exc()
             return 2
+        except Exception as exc:  # noqa: BLE001
+            # an exception raised INSIDE the library while the exploration itself was being set up (building an
+            # initial state, a clean reference run) means the unchanged scenario no longer works: that is a
+            # failure of the property's preconditions on this tree, not a bug of the harness
+            tb = traceback.extract_tb(exc.__traceback__)
+            lib = [fr for fr in tb if "/mxlpy/" in fr.filename]
+            if not lib:
+                raise
+            ctx.record(
+                {"setup": True, "where": f"{lib[0].name} -> {lib[-1].name}"},
+                core.outcome(False, "setup-failed", symptom=f"unexpected-exception-in-setup:{type(exc).__name__}:{lib[-1].name}", nontrivial=True,
+                             detail=f"{type(exc).__name__}: {str(exc)[:300]} raised in {lib[-1].filename.split('/mxlpy/')[-1]}:{lib[-1].lineno} while the exploration was set up"),
+            )
         entries, by_entry, unexplained = core.attribute(module, ctx.failures)
         known_report = {}
         for e in entries:
@@ -111,6 +124,10 @@ def main():
             print(f"   ... {violations - shown} further failing cases not written out")
         if violations:
             print(f"[{module.ID}] unexplained symptoms: {dict(sorted(seen_sym.items(), key=lambda kv: str(kv[0])))}")
+        if any(c.get("setup") for c, _r in unexplained):
+            # nothing was explored: there is no coverage to report (the evidence file of the last full run is left alone)
+            print(f"[{module.ID}] tier={tier} seed={seed} exploration could not be set up; violations={violations}")
+            return 1
         ev = core.write_evidence(ctx, violations, known_report)
         cov = ev["coverage"]
         print(
